@@ -3,6 +3,7 @@ import AcraModel.Sql.Ident
 import AcraModel.Sql.ExprRoundTrip
 import AcraModel.Sql.ExprSound
 import AcraModel.Sql.ExprSubst
+import AcraModel.Sql.ExprConverse
 /-!
 # C13 — re-serialised statements mean the same as the statements received
 
@@ -227,6 +228,13 @@ theorem parse_print_parse (ts : List Tok) (t : Expr) (hok : AllOk ts) (h : parse
     {σ : Nat → Bytes → Nat × Bytes} (hσ : SubstOk σ) :
     parseExpr (tokens (format t)) = some t ∧ parseExpr (tokens (format (subst σ t))) = some (subst σ t) :=
   ⟨expr_roundtrip t (parse_producible ts t hok h), subst_roundtrip hσ t (parse_producible ts t hok h)⟩
+
+/-- **Exactly the producible trees round-trip.** For a tree whose `SQLVal` leaves are well-formed literals, the printed
+form parses back to the tree if *and only if* the tree is producible: every operand of too low a level that is not
+wrapped in a `ParenExpr`, and every `IntVal` directly under unary `+`/`-`, changes the statement that is read back. -/
+theorem roundtrip_iff_producible (t : Expr) (hl : LeavesOk t) :
+    parseExpr (tokens (format t)) = some t ↔ Producible t :=
+  ⟨fun h => parse_producible _ t (allOk_toks t hl) h, expr_roundtrip t⟩
 
 private def ca : Expr := .col [97]
 private def cb : Expr := .col [98]
